@@ -312,7 +312,10 @@ func vfLinearHistory(n, h, faulty int, reach string) {
 			if lib.BlockNo > 0 {
 				// blocks of more than two thirds of the producers build on the LIB
 				d := hi.distinctFrom(lib.BlockNo)
-				vf.AssertKnown(d >= int(s.libState.confirmsRequired), "C08.c.quorum", vfFindingQuorum, hi.liarFrom(lib.BlockNo))
+				// known class: a lying producer's block is among the blocks from the LIB on AND not all n producers are
+				// recorded in Prpsd yet (calcLIB then takes its quorum over the recorded ones only)
+				vf.AssertKnown(d >= int(s.libState.confirmsRequired), "C08.c.quorum", vfFindingQuorum,
+					vf.And(hi.liarFrom(lib.BlockNo), len(s.libState.Prpsd) < n))
 			}
 		}
 		vf.Assert(s.libNo() == lib.BlockNo, "C08.c.bounded")
